@@ -73,6 +73,40 @@ def _body_has(ifnode, text):
     return any(text in ast.unparse(s) for s in ifnode.body)
 
 
+def _canonical_names(bw):
+    """local variables of `backward` are renamed by ROLE before anything is read from it (the set created by `set()` is
+    `visited_nodes`, the list created empty is `ordered_nodes`, the list created with one frame is `stack`, the frame components
+    and the two loop variables likewise), so renaming a local variable in the source changes nothing here"""
+    import copy
+    bw = copy.deepcopy(bw)
+    ren = {}
+    for st in bw.body:
+        if isinstance(st, ast.Assign) and len(st.targets) == 1 and isinstance(st.targets[0], ast.Name):
+            v, t = st.value, st.targets[0].id
+            if isinstance(v, ast.Call) and ast.unparse(v) == 'set()': ren.setdefault(t, 'visited_nodes')
+            elif isinstance(v, ast.List) and not v.elts: ren.setdefault(t, 'ordered_nodes')
+            elif isinstance(v, ast.List) and len(v.elts) == 1 and isinstance(v.elts[0], ast.Tuple): ren.setdefault(t, 'stack')
+            elif isinstance(v, ast.Call) and isinstance(v.func, ast.Attribute) and v.func.attr == 'astype': ren.setdefault(t, 'grad_data')
+    for w in [s for s in bw.body if isinstance(s, ast.While)]:
+        for st in w.body:
+            if isinstance(st, ast.Assign) and isinstance(st.targets[0], ast.Tuple) and len(st.targets[0].elts) == 2 \
+                    and all(isinstance(e, ast.Name) for e in st.targets[0].elts) and isinstance(st.value, ast.Subscript):
+                ren.setdefault(st.targets[0].elts[0].id, 'node'); ren.setdefault(st.targets[0].elts[1].id, 'children')
+            if isinstance(st, ast.For) and isinstance(st.target, ast.Name):
+                ren.setdefault(st.target.id, 'child')
+    for f in [s for s in bw.body if isinstance(s, ast.For)]:
+        if isinstance(f.target, ast.Tuple) and len(f.target.elts) == 2 and all(isinstance(e, ast.Name) for e in f.target.elts):
+            ren[f.target.elts[0].id] = 'i'
+            # the sweep variable may reuse the name of the traversal's frame component: both are `node`
+            ren[f.target.elts[1].id] = 'node'
+    if len(set(ren.values())) != len({k for k in ren}) and len(set(ren.values())) < len(ren) - 1:
+        raise Untranslatable('local variable roles of backward are ambiguous: ' + repr(ren))
+    class R(ast.NodeTransformer):
+        def visit_Name(self, n):
+            return ast.copy_location(ast.Name(id=ren.get(n.id, n.id), ctx=n.ctx), n)
+    return ast.fix_missing_locations(R().visit(bw))
+
+
 def extract(tree):
     """-> (conditions: [(name, expr, doc)], transitions, skeletons)"""
     T = [c for c in tree.body if isinstance(c, ast.ClassDef) and c.name == 'Tensor']
@@ -114,7 +148,7 @@ def extract(tree):
     if len(r) != 1 or ast.unparse(f.body[-1]) != 'self._retain_grad = True': raise Untranslatable('retain_grad')
     conds.append(('retain_grad_rejects', r[0], 'Tensor.retain_grad guard'))
 
-    bw = _method(T, 'backward')
+    bw = _canonical_names(_method(T, 'backward'))
     r = _raise_ifs(bw)
     if not r: raise Untranslatable('backward: first guard')
     conds.append(('backward_rejects', r[0], 'Tensor.backward: first guard'))
@@ -201,9 +235,29 @@ def lean_str(s):
     return '"' + s.replace('\\', '\\\\').replace('"', '\\"') + '"'
 
 
-def translate(src_path=None):
+MODULES_SRC = lambda: os.path.join(common.REPO, 'synapgrad', 'nn', 'modules.py')
+
+
+def class_methods(tree, cname):
+    """names of the functions defined in the body of a class (its own methods, properties and setters once each), in source order"""
+    C = [c for c in tree.body if isinstance(c, ast.ClassDef) and c.name == cname]
+    if not C: raise Untranslatable(f'no class {cname}')
+    out = []
+    for f in C[0].body:
+        if isinstance(f, (ast.FunctionDef, ast.AsyncFunctionDef)) and f.name not in out: out.append(f.name)
+        if isinstance(f, ast.Assign):                      # `__iadd__ = __add__` style aliases count as definitions
+            for t in f.targets:
+                if isinstance(t, ast.Name) and t.id not in out: out.append(t.id)
+    bases = [ast.unparse(b) for b in C[0].bases]
+    return out, bases
+
+
+def translate(src_path=None, modules_path=None):
     tree = ast.parse(open(src_path or SRC()).read())
     conds, trans, sk1, sk2 = extract(tree)
+    tmeth, tbases = class_methods(tree, 'Tensor')
+    mtree = ast.parse(open(modules_path or MODULES_SRC()).read())
+    pmeth, pbases = class_methods(mtree, 'Parameter')
     out = ['/-! GENERATED by harness/engine_logic.py from synapgrad/tensor.py on every run — do not edit.',
            '    The Boolean conditions of tensor creation, the flag setters and `Tensor.backward` over named atoms; the grad-mode',
            '    context managers as transitions of (global flag, `self.prev`); the statement skeletons of the two loops of `backward`. -/',
@@ -219,6 +273,12 @@ def translate(src_path=None):
     for name, g, prev, doc in trans:
         out.append(f'/-- {doc} -/')
         out.append(f'def {name} (g prev : Bool) : Bool × Bool := ({g}, {prev})\n')
+    out.append('/-- the functions defined in the body of `class Tensor` (tensor.py), in source order -/')
+    out.append('def tensorMethods : List String := [' + ', '.join(lean_str(m) for m in tmeth) + ']')
+    out.append('def tensorBases : List String := [' + ', '.join(lean_str(m) for m in tbases) + ']\n')
+    out.append('/-- the functions defined in the body of `class Parameter` (nn/modules.py), and its base classes -/')
+    out.append('def parameterMethods : List String := [' + ', '.join(lean_str(m) for m in pmeth) + ']')
+    out.append('def parameterBases : List String := [' + ', '.join(lean_str(m) for m in pbases) + ']\n')
     out.append('def traversalSkeleton : List String := [\n  ' + ',\n  '.join(lean_str(s) for s in sk1) + ']\n')
     out.append('def sweepSkeleton : List String := [\n  ' + ',\n  '.join(lean_str(s) for s in sk2) + ']\n')
     # evaluator for the driver
